@@ -18,6 +18,10 @@ go test -vet=off -count=1 -run "$run" "./$pkg/" > /tmp/sv/$prop$ab.with.log 2>&1
 rm "$wt/$pkg/zz_demo_test.go"
 go test -vet=off -count=1 $(go list ./... | grep -v -e pfring -e pfdump -e afpacket -e bsdbpf -e examples) > /tmp/sv/$prop$ab.suite.log 2>&1
 fails=$(grep -E "^(--- FAIL|FAIL)" /tmp/sv/$prop$ab.suite.log | grep -v -e TestEthernetHandle_Close -e "^FAIL$" -e "gopacket/pcapgo" | head)
+if echo "$fails" | grep -q routing; then
+  # routing's tests create veth devices and collide with concurrent runs: retry that package alone
+  for i in 1 2 3; do sleep 2; if go test -vet=off -count=1 ./routing/ > /tmp/sv/$prop$ab.routing.log 2>&1; then fails=$(echo "$fails" | grep -v -e routing -e TestRouting); break; fi; done
+fi
 echo "demo without patch exit=$without (want 0); with patch exit=$with (want !=0); unexpected suite failures: [${fails}]"
 cd /; git -C /repo worktree remove --force "$wt"
 if [ $without -eq 0 ] && [ $with -ne 0 ] && [ -z "$fails" ]; then
@@ -34,5 +38,5 @@ json.dump({"property":prop,"id":f"{prop}-{ab}","demo_package_dir":pkg,"demo_run"
 PY
   echo "STORED $d"
 else
-  echo "NOT CONFIRMED"; tail -5 /tmp/sv/$prop$ab.with.log /tmp/sv/$prop$ab.without.log
+  echo "NOT CONFIRMED"; tail -n 5 /tmp/sv/$prop$ab.with.log /tmp/sv/$prop$ab.without.log
 fi
